@@ -129,6 +129,11 @@ func (t *tr) expr(e ast.Expr) string {
 		return c
 	}
 
+	// a type used as an argument (make, new): its printed form
+	if tv, ok := t.info.Types[e]; ok && tv.IsType() {
+		return "(GStr " + q("type "+t.src(e)) + ")"
+	}
+
 	switch x := e.(type) {
 	case *ast.ParenExpr:
 		return t.expr(x.X)
